@@ -352,6 +352,8 @@ package scanner
 //@   requires StackInv(s)
 //@   modifies s.includeTracers, mapof(s.includeTracers)
 //@   ensures !isnil(ret) && StackInv(s)
+//@   ensures [C02] len(s.stack) > 0 ==> typeis(ret, directiveIncludeTracer) && len(unbox(directiveIncludeTracer, ret).stack) == len(s.stack)
+//@   ensures [C02] len(s.stack) > 0 ==> (forall k :: 0 <= k && k < len(s.stack) ==> unbox(directiveIncludeTracer, ret).stack[k].file == s.stack[k].scanner.file && unbox(directiveIncludeTracer, ret).stack[k].at == s.stack[k].at)
 
 //@ pred StackInv(s *Stack) = s != nil && len(s.hashes) == len(s.stack)
 //@     && (forall k uint64 :: has(s.includeTracers, k) ==> !isnil(s.includeTracers[k]))
